@@ -428,6 +428,18 @@ pub trait InstrFormat {
     fn instr_size(&self, instr: &RawInstr) -> usize { self.instr_header_size() + instr.args_blob.len() }
 }
 
+/// Convert the value of a header field or count to the (narrower) integer type that the
+/// format stores it in, producing an error instead of silently wrapping if it does not fit.
+pub fn fit_field<T, U>(emitter: &dyn Emitter, what: &str, value: U) -> Result<T, crate::error::ErrorReported>
+where
+    T: TryFrom<U>,
+    U: Copy + std::fmt::Display,
+{
+    T::try_from(value).map_err(|_| emitter.as_sized().emit(error!(
+        "{what} {value} does not fit in the {}-bit field used by this format", 8 * std::mem::size_of::<T>(),
+    )))
+}
+
 #[derive(Debug)]
 pub enum ReadInstr {
     /// A regular instruction was read that belongs in the script.
